@@ -38,7 +38,7 @@ METRICS = ['params', 'params_no_bias', 'ops', 'ops_no_bias']
 
 def cases(tier, seed):
     cs = []
-    n = 400 if tier == 'quick' else 6000
+    n = 400 if tier == 'quick' else 16000
     for i in range(n):
         cs.append({'net_seed': seed * 1000003 + 2000 + i // 4, 'seed': seed * 7919 + i,
                    'mode': ['soft', 'hard', 'gumbel-soft', 'gumbel-hard'][i % 4],
